@@ -172,7 +172,7 @@ def run_case(case):
             continue
         execs += 1
         counters["configs"] += 1
-        tol = (1e-12 if dtype == "float64" else 2e-5)
+        tol = (1e-12 if dtype == "float64" else 2e-4)
         J = ref.jacobian(outs, eff)  # canonical column order (ascending leaf index)
         scale = max(1.0, float(np.abs(J).max()) if J.size else 1.0)
         # observed deltas
